@@ -2,6 +2,7 @@
   C10 — Requests act only on the addressed unit; broadcast acts on all.
 -/
 import Pymodbus.Props.C09
+import Pymodbus.Generated.Tables
 namespace Pymodbus.Props.C10
 open Pymodbus Pymodbus.Server RegisterFile
 
@@ -105,5 +106,14 @@ theorem single_mode_any_unit (c : SlaveCtx) (uid : Nat) :
     (ServerCtx.mkSingle c).getItem uid = .ok c := C18.single_routes_all c uid
 
 example : bcast ⟨.rtu, .syncSerial, false, true⟩ 0 = true ∧ bcast ⟨.rtu, .twistedTcp, false, true⟩ 0 = false := by decide
+
+
+/-- tie to the source: the structure of the seven front-ends as read off the source files on this run (by ast: which
+    receive methods append unit 0 when broadcast is enabled, what each catch-all does with an exception out of the
+    receive call, who counts sent messages, who is gated by listen-only mode, that sending is gated by
+    `should_respond` and that `execute` copies transaction id and unit id to the response) is the one the model encodes -/
+theorem generated_server_structure :
+    Generated.serverStructure = allFrontends.map (fun f =>
+      (f.name, addsBroadcastUnit f, f.onErrorSrc, isTwisted f, isTwisted f, true, true)) := by rfl
 
 end Pymodbus.Props.C10
